@@ -38,6 +38,7 @@ lock atomicity (`forkPoint` under RLock, table updates under Lock) makes a histo
 -/
 import Kap.Basic
 import Kap.Model.C16
+import Kap.Model.C06
 namespace Kap.C02
 
 /-- `forkKey{Database, RetentionPolicy, Measurement}` -/
@@ -373,8 +374,12 @@ def sortStrings : List String → List String
   | [] => []
   | a :: l => insertSorted a (sortStrings l)
 
-/-- `determineTagNames(n.Dimensions, nil)`: (allDimensions, the string dimensions sorted). -/
-def FromOpts.determineTagNames (o : FromOpts) : Bool × List String := (o.star, sortStrings o.dims)
+/-- `determineTagNames(n.Dimensions, nil)`: (allDimensions, the string dimensions sorted, a repeated name kept once —
+`uniqueSorted`, group_by.go, since `fix:` 6ba92e9; transcribed in Kap/Model/C06.lean). -/
+def FromOpts.determineTagNames (o : FromOpts) : Bool × List String := (o.star, C06.uniqueSorted (sortStrings o.dims))
+
+/-- `determineTagNames` before `fix:` 6ba92e9: repetitions kept (counterexample theorem only). -/
+def FromOpts.determineTagNamesOld (o : FromOpts) : Bool × List String := (o.star, sortStrings o.dims)
 
 /-- `computeTagNames(p.Tags(), allDimensions, tagNames, nil)`; `models.SortedKeys(tags)` = the keys, sorted. -/
 def computeTagNames (tags : List (String × String)) (allDimensions : Bool) (tagNames : List String) : List String :=
